@@ -26,7 +26,7 @@ LAYOUTS = ((1, "AA+BB"), (2, "AABB"), (4, "AABBCRCI"), (4, "STOKE"))
 
 def REQUIRED(tier):
     return ["files_generated", "files_in_domain", "whole_file_checks", "position_requests", "regime:unaligned_start", "regime:crosses_subint", "plan_checks", "reduction_checks",
-            "header_type_checks", "band:ascending", "band:descending", "layout:AABBCRCI", "layout:STOKE"]
+            "header_type_checks", "band:ascending", "band:descending", "layout:AABBCRCI", "layout:STOKE", "mutation_checks", "regime:partial_last_subint"]
 
 
 def cases(tier, seed):
@@ -55,9 +55,11 @@ def _gen(case, ctx):
     tbin = float(rng.choice([6.4e-5, 5.12e-4]))
     path = os.path.join(ctx.tmp, f"p{case['fseed']}.sf")
     meta = dict(nbits=nbits, pol_type=pol, freqs=freqs, tbin=tbin, scl=scl, offs=offs, wts=wts, zero_off=zero_off)
-    psrfits.write_psrfits(path, raw, **meta)
-    ref = psrfits.reference_values(raw, pol_type=pol, freqs=freqs, scl=scl, offs=offs, wts=wts, zero_off=zero_off)
-    info = {"nsub": nsub, "nsblk": nsblk, "nchan": nchan, "npol": npol, "pol_type": pol, "nbits": nbits, "ascending": ascending, "zero_off": zero_off, "tbin": tbin}
+    # one file in three has a partly filled last sub-integration: NSTOT (the number of valid samples) < NSBLK * rows
+    nstot = nsub * nsblk - (int(rng.integers(1, nsblk)) if case["fseed"] % 3 == 1 else 0)
+    psrfits.write_psrfits(path, raw, nstot=nstot, **meta)
+    ref = psrfits.reference_values(raw, pol_type=pol, freqs=freqs, scl=scl, offs=offs, wts=wts, zero_off=zero_off)[:nstot]
+    info = {"nsub": nsub, "nsblk": nsblk, "nchan": nchan, "npol": npol, "pol_type": pol, "nbits": nbits, "ascending": ascending, "zero_off": zero_off, "tbin": tbin, "nstot": nstot}
     return path, ref, freqs, info
 
 
@@ -135,6 +137,31 @@ def run_case(case, ctx):
                 return
             if unal or cross:
                 ctx.nontrivial_case({"f": case["fseed"], "r": [start, ns]})
+    if info["nstot"] < info["nsub"] * info["nsblk"]:
+        ctx.count("regime:partial_last_subint")
+    # ---- delivered blocks are the caller's: editing one in place must not change what later reads return
+    ctx.evaluated(); ctx.count("mutation_checks")
+    for (st, ns) in ((0, min(N, max(1, nsblk // 2))), (min(N - 1, nsblk + 1), min(N - min(N - 1, nsblk + 1), nsblk - 1) or 1), (0, N)):
+        b = rd.read_block(st, ns)
+        try:
+            b.data[...] = -12345.0
+        except ValueError:
+            pass  # read-only view: fine
+        again = np.asarray(rd.read_block(st, ns).data)
+        if not np.array_equal(again, np.asarray(whole.data)[:, st : st + ns]):
+            ctx.violation("read-after-caller-edit", f"read_block({st},{ns}) returns different values after an earlier block covering it was edited in place (shared cache buffer)", dict(one, request=[st, ns]))
+            return
+    mk = np.zeros(nch, dtype=bool); mk[:: 2] = True
+    tmp_out = os.path.join(ctx.tmp, f"m{case['fseed']}.fil")
+    try:
+        rd.apply_channel_mask(mk, 0, tmp_out, gulp=max(1, nsblk // 2), quiet=True, description="v")   # masks the yielded blocks in place
+        again = np.asarray(rd.read_block(0, N).data)
+        if not np.array_equal(again, np.asarray(whole.data)):
+            ctx.violation("read-after-inplace-transform", "whole-file read differs after apply_channel_mask streamed over the same reader (delivered blocks alias an internal cache)", one)
+            return
+    finally:
+        if os.path.exists(tmp_out):
+            os.unlink(tmp_out)
     # ---- read_plan exactly once
     Wflat = np.asarray(whole.data).T
     for gulp in list(range(1, min(N, 40) + 2)) + [N, N + 3]:
